@@ -117,6 +117,17 @@ int max_users = 0;
 
 static io_event_t g_io_events[512];  /* Event buffer for async_runtime_wait() */
 static int g_num_io_events = 0;
+static int g_next_io_event = 0;      /* first event that process_io() has not dispatched yet */
+
+/* Is this an event that async_runtime_wait() will not report a second time? A readiness
+ * event (epoll, poll) comes again as long as the descriptor is ready. A worker completion or
+ * wake-up has been read from the notification pipe; it is the kind of event that has no
+ * context. With IOCP every event is a packet that has been taken out of the port. */
+#ifdef _WIN32
+#define IO_EVENT_IS_CONSUMED(evt)   1
+#else
+#define IO_EVENT_IS_CONSUMED(evt)   ((evt)->context == NULL)
+#endif
 
 static socket_fd_t addr_server_fd = INVALID_SOCKET_FD;
 
@@ -316,16 +327,39 @@ void ipc_remove () {
 }
 
 int do_comm_polling (struct timeval *timeout) {
+  const int max_io_events = (int)(sizeof(g_io_events) / sizeof(g_io_events[0]));
+  struct timeval no_wait = { 0, 0 };
+  int kept = 0, n = 0;
+
+  /* process_io() is left by longjmp() when LPC code that an event handler runs raises an
+   * error. Completions that were behind the failing event are delivered by the next
+   * process_io() instead of being lost with the rest of the batch: the runtime has handed
+   * them over already and will not do it again.
+   */
+  for (; g_next_io_event < g_num_io_events; g_next_io_event++)
+    {
+      if (IO_EVENT_IS_CONSUMED (&g_io_events[g_next_io_event]))
+        g_io_events[kept++] = g_io_events[g_next_io_event];
+    }
+  g_next_io_event = 0;
+  g_num_io_events = kept;
+  if (kept > 0)
+    timeout = &no_wait; /* there is work to do already */
+
   opt_trace (TT_COMM|3, "calling async_runtime_wait(): timeout %ld sec, %ld usec",
              timeout->tv_sec, timeout->tv_usec);
   
   /* Use async runtime for event demultiplexing */
-  g_num_io_events = async_runtime_wait (g_runtime, g_io_events,
-                                        sizeof(g_io_events) / sizeof(g_io_events[0]),
-                                        timeout);
+  if (kept < max_io_events)
+    {
+      n = async_runtime_wait (g_runtime, g_io_events + kept, max_io_events - kept, timeout);
+      if (n < 0)
+        return n;
+    }
+  g_num_io_events = kept + n;
   
   if (g_num_io_events > 0)
-    opt_trace (TT_COMM|3, "async_runtime_wait returned %d events", g_num_io_events);
+    opt_trace (TT_COMM|3, "async_runtime_wait returned %d events (%d kept from the last round)", n, kept);
   
   return g_num_io_events;
 }
@@ -1141,10 +1175,11 @@ void process_io () {
   if (g_num_io_events > 0)
     opt_trace (TT_COMM|3, "process_io: processing %d events", g_num_io_events);
 
-  /* Dispatch all events returned by reactor */
-  for (i = 0; i < g_num_io_events; i++)
+  /* Dispatch all events returned by reactor. The position is kept in g_next_io_event, so
+   * that do_comm_polling() knows what is left when a handler leaves with an error. */
+  while (g_next_io_event < g_num_io_events)
     {
-      io_event_t *evt = &g_io_events[i];
+      io_event_t *evt = &g_io_events[i = g_next_io_event++];
       opt_trace (TT_COMM|3, "  event[%d]: context=%p, event_type=%d, fd=%d, completion_key=%lu",
                  i, evt->context, evt->event_type, (int)evt->fd, (unsigned long)evt->completion_key);
       
